@@ -971,8 +971,9 @@ class BaseWorkflow(object, metaclass=abc.ABCMeta):
                 List of absence step time in simulation.
         """
         for t in self.task_list:
-            if not isinstance(t, BaseSubProjectTask):
-                t.remove_absence_time_list(absence_time_list)
+            # BaseSubProjectTask has an attribute named remove_absence_time_list (a flag)
+            # which hides the method, so call the method through the class.
+            BaseTask.remove_absence_time_list(t, absence_time_list)
 
     def insert_absence_time_list(self, absence_time_list):
         """
@@ -983,8 +984,7 @@ class BaseWorkflow(object, metaclass=abc.ABCMeta):
                 List of absence step time in simulation.
         """
         for t in self.task_list:
-            if not isinstance(t, BaseSubProjectTask):
-                t.insert_absence_time_list(absence_time_list)
+            BaseTask.insert_absence_time_list(t, absence_time_list)
 
     def print_log(self, target_step_time):
         """
